@@ -41,6 +41,15 @@ func transTryAll() {
 				transTargets = transTargets[:len(transTargets)-1]
 				if f != nil {
 					fmt.Printf("TRY ok   %s %s.%s (%d opaque params, %d lines)\n", fn, tg.recv, tg.name, len(f.oparams), len(f.text))
+					// TRANS_DUMP=name1,name2: also print the generated text of these functions
+					for _, d := range strings.Split(os.Getenv("TRANS_DUMP"), ",") {
+						if d == tg.name || d == tg.recv+"."+tg.name {
+							for _, a := range f.aux {
+								fmt.Println(strings.Join(a, "\n"))
+							}
+							fmt.Println(strings.Join(f.text, "\n"))
+						}
+					}
 				} else if len(failed) > len(saved) {
 					fmt.Printf("TRY fail %s %s.%s: %s\n", fn, tg.recv, tg.name, failed[len(failed)-1][strings.Index(failed[len(failed)-1], ":")+1:])
 				}
